@@ -83,6 +83,10 @@ fn container_config(v: &Value) -> ContainerConfig {
     if !v["entrypoint"].is_null() {
         c.entrypoint(string_of(&v["entrypoint"]));
     }
+    // (earlier settings of the command on the same configuration: the setter replaces)
+    for earlier in v["command_history"].as_array().map(Vec::as_slice).unwrap_or_default() {
+        c.command(earlier.as_array().unwrap().iter().map(string_of).collect::<Vec<_>>());
+    }
     if !v["command"].is_null() {
         c.command(v["command"].as_array().unwrap().iter().map(string_of).collect::<Vec<_>>());
     }
